@@ -404,3 +404,8 @@ func ConstBool(v ssa.Value) (bool, bool) {
 	}
 	return constant.BoolVal(c.Value), true
 }
+
+// TypeString renders a type with full package paths.
+func TypeString(t types.Type) string {
+	return types.TypeString(t, func(p *types.Package) string { return p.Path() })
+}
